@@ -3,14 +3,14 @@
 // Contracts for govc (contract-based deductive verification); comment-only, compiled only with -tags verif.
 package common
 
-//@ func BytesToUint32
+//@ func BytesToUint32 (bytes)
 //@   props C19
 //@   requires len(bytes) <= 4
 //@   requires forall(i, 0, len(bytes), 0 <= bytes[i] && bytes[i] <= 255)
 //@   ensures[value] result == beVal(seq(bytes), 0, len(bytes))
 
 // little-endian commitment bytes: the reversed minimal big-endian bytes of |n|, zero-padded / capped to 32
-//@ func BigIntToLittleEndianBytes
+//@ func BigIntToLittleEndianBytes (n)
 //@   props C19 C10
 //@   requires n != nil
 //@   modifies nothing
@@ -25,17 +25,17 @@ package common
 //@ spec fn leB(v int) Bytes
 //@ axiom leBdef(a []byte, v int) : forall(k, 0, 32, a[k] == ite(k < bigLen(v), bigBytes(v)[bigLen(v) - 1 - k], 0)) ==> bytesOf(a, 32) == leB(v) @trigger bytesOf(a, 32), leB(v) @only BigIntToLittleEndianBytes
 
-//@ func Uint32ToBytes
+//@ func Uint32ToBytes (num)
 //@   props C03 C10
 //@   definitional
 //@   ensures[be32] len(result) == 4 && off(result) == 0 && fresh(ref(result)) && bytesOf(seq(result), 4) == beNB(num, 4)
 
-//@ func Uint64ToBigEndianBytes
+//@ func Uint64ToBigEndianBytes (num)
 //@   props C10
 //@   definitional
 //@   ensures[be64] len(result) == 8 && off(result) == 0 && fresh(ref(result)) && bytesOf(seq(result), 8) == beNB(num, 8)
 
-//@ func Uint64ToLittleEndianBytes
+//@ func Uint64ToLittleEndianBytes (num)
 //@   props C10
 //@   definitional
 //@   ensures[le64] len(result) == 8 && off(result) == 0 && fresh(ref(result)) && bytesOf(seq(result), 8) == leNB(num, 8)
